@@ -5,13 +5,20 @@ with bounds in {-2..2} (including x == y), plus seeded longer (5-14 insertions) 
 copies taken at random points, on the real DeltaSimpleTemporalNetwork against Floyd-Warshall / Bellman-Ford:
 check_stn() iff the difference constraints have a solution; while consistent the reported model satisfies
 every inserted constraint and is the least solution with all event times >= 0; a copy evolves independently.
-The inductive invariant of the incremental Bellman-Ford (DESIGN.md C25) is not proved: bounded only.
+The inductive invariant of the incremental Bellman-Ford (_inc_check; DESIGN.md C25) is not proved: that part is bounded only.
+
+P (real source; the representation the consistency argument stands on):
+  _is_subsumed   over a neighbour list of any length: True exactly when the nearest entry for the destination exists and is at least as tight;
+  add            (with _is_subsumed / _inc_check by contract): an inconsistent network is never touched; otherwise both events get a distance
+                 (0 when new), the destination gets a constraint entry, and unless subsumed the new constraint is prepended to the source's list
+                 (older constraints are kept: the list only grows at its head) and the verdict is the one _inc_check returns;
+  copy_stn       the copy owns fresh dictionaries with the same content and shares only the immutable neighbour nodes, so insertions into one
+                 network cannot be seen by the other.
 """
 import itertools
 import random
 from fractions import Fraction
 
-UNITS = []
 USES_THEORY = False
 
 
@@ -137,5 +144,192 @@ def replay_file(data):
     return {"reproduced": bool(bad), "concrete": c, "observed": bad}
 
 
-LEVEL = "exploration"
+# ======================================================================================================= proved layer
+import z3
+from pyvc.values import Ref, Map, Opt, Real as PReal, SBool, SRef, SReal, SUnion, SMap, Rec, Loc, fresh_name, zbool, zreal, Unsupported as _Unsup
+from pyvc.values import Bool as PBool
+from pyvc.verify import Unit
+from pyvc.engine import LoopSpec
+from pyvc import builtins as B
+import unified_planning.model.delta_stn as _ds
+
+Event = Ref("Event25")
+Nb = Ref("DeltaNeighbors25", fields={"dst": Event, "bound": PReal})
+Nb.fields["next"] = Opt(Nb)
+_N, _E = Nb.z3sort(), Event.z3sort()
+nb_dst, nb_bound = B._uf("DeltaNeighbors25.dst", _N, _E), B._uf("DeltaNeighbors25.bound", _N, z3.RealSort())
+nb_next_none, nb_next = B._uf("DeltaNeighbors25.next.isnone", _N, z3.BoolSort()), B._uf("DeltaNeighbors25.next", _N, _N)
+# nearest entry for a destination from a node on: defined by recursion on the list
+HASF = z3.Function("has_entry_from", _N, _E, z3.BoolSort())
+FIRSTB = z3.Function("nearest_bound_from", _N, _E, z3.RealSort())
+QN_SUB = "unified_planning.model.delta_stn.DeltaSimpleTemporalNetwork._is_subsumed"
+
+
+def list_axioms():
+    n, y = z3.Const("n!25", _N), z3.Const("y!25", _E)
+    return [z3.ForAll([n, y], HASF(n, y) == z3.Or(nb_dst(n) == y, z3.And(z3.Not(nb_next_none(n)), HASF(nb_next(n), y))), patterns=[HASF(n, y)]),
+            z3.ForAll([n, y], FIRSTB(n, y) == z3.If(nb_dst(n) == y, nb_bound(n), FIRSTB(nb_next(n), y)), patterns=[FIRSTB(n, y)])]
+
+
+def _stn(eng, st, sat=None):
+    cons = eng.fresh_of(st, Map(Event, Opt(Nb)) if False else Map(Event, Nb), "constraints")
+    # a constraint entry may be None (an event without outgoing constraints): modelled by a per-key flag
+    cnone = z3.Array(fresh_name("constraints.isnone"), _E, z3.BoolSort())
+    dist = eng.fresh_of(st, Map(Event, PReal), "distances")
+    return cons, cnone, dist
+
+
+class IsSubsumed(Unit):
+    prop = "C25"
+    name = "DeltaSimpleTemporalNetwork._is_subsumed"
+    doc = "True exactly when the nearest entry of x's list for destination y exists and its bound is <= b (any list length)"
+
+    def target(self):
+        return _ds.DeltaSimpleTemporalNetwork._is_subsumed
+
+    def configure(self, eng):
+        eng.axioms += list_axioms()
+
+        def inv(L):
+            nb = L.neighbor
+            y = L.y.z
+            head = self._head
+            if isinstance(nb, SUnion):
+                g_none = nb.is_none().z
+                cur = nb.some().z
+                return [("nothing for y before the current node; the rest of the list decides",
+                         z3.And(z3.Implies(g_none, z3.Not(self._has0)),
+                                z3.Implies(z3.Not(g_none), z3.And(self._has0 == HASF(cur, y), z3.Implies(HASF(cur, y), self._first0 == FIRSTB(cur, y))))))]
+            if nb is None:
+                return [("nothing for y in the list", z3.Not(self._has0))]
+            return [("the rest of the list decides", z3.And(self._has0 == HASF(nb.z, y), z3.Implies(HASF(nb.z, y), self._first0 == FIRSTB(nb.z, y))))]
+        eng.loops[(QN_SUB, 0)] = LoopSpec(inv, modifies=["neighbor"], types={"neighbor": Opt(Nb)})
+
+    def setup(self, eng, st):
+        x, y, b = Event.fresh("x"), Event.fresh("y"), PReal.fresh("b")
+        head_none = z3.Bool(fresh_name("head.isnone"))
+        head = Nb.fresh("head")
+        self._head = head
+        self._has0 = z3.And(z3.Not(head_none), HASF(head.z, y.z))
+        self._first0 = FIRSTB(head.z, y.z)
+        CM = Ref("ConstraintMap25")
+
+        def get(eng_, s, selfv, args, kw):
+            yield s, SUnion([(head_none, None), (z3.Not(head_none), head)])
+        CM.methods["get"] = get
+        w = st.alloc(Rec(_ds.DeltaSimpleTemporalNetwork, {"_constraints": CM.fresh("constraints")}), "stn")
+        return [w, x, y, b], {}, dict(b=b)
+
+    def post(self, eng, ctx, st, out):
+        if out[0] != "return":
+            return
+        r = eng.as_bool_value(st, out[1])
+        st.oblige("subsumed iff the nearest entry for y exists and is at least as tight", zbool(r) == z3.And(self._has0, self._first0 <= ctx["b"].z))
+
+
+class CopyStn(Unit):
+    prop = "C25"
+    name = "DeltaSimpleTemporalNetwork.copy_stn"
+    doc = "fresh dictionaries with the same content, same verdict and epsilon: later insertions into one network cannot reach the other"
+
+    def target(self):
+        return _ds.DeltaSimpleTemporalNetwork.copy_stn
+
+    def setup(self, eng, st):
+        cons = eng.fresh_of(st, Map(Event, Nb), "constraints")
+        dist = eng.fresh_of(st, Map(Event, PReal), "distances")
+        cl, dl = st.alloc(cons, "dict"), st.alloc(dist, "dict")
+        sat, eps = PBool.fresh("is_sat"), PReal.fresh("epsilon")
+        w = st.alloc(Rec(_ds.DeltaSimpleTemporalNetwork, {"_constraints": cl, "_distances": dl, "_is_sat": sat, "_epsilon": eps}), "stn")
+        return [w], {}, dict(w=w, cons=cons, dist=dist, cl=cl, dl=dl, sat=sat, eps=eps)
+
+    def post(self, eng, ctx, st, out):
+        if out[0] != "return":
+            return
+        r = eng.deref(st, out[1])
+        if not isinstance(r, Rec):
+            st.oblige("a network object is returned", z3.BoolVal(False))
+            return
+        f = r.fields
+        for fld, src_loc, src in (("_constraints", ctx["cl"], ctx["cons"]), ("_distances", ctx["dl"], ctx["dist"])):
+            loc = f[fld]
+            st.oblige(f"{fld}: the copy owns a fresh dictionary", z3.BoolVal(isinstance(loc, Loc) and loc.id != src_loc.id))
+            if isinstance(loc, Loc):
+                st.oblige(f"{fld}: same content as the original", st.load(loc).same(src))
+            st.oblige(f"{fld}: the original keeps its own dictionary, unchanged",
+                      z3.And(z3.BoolVal(st.getfield(ctx["w"], fld).id == src_loc.id), st.load(src_loc).same(src).z))
+        st.oblige("same verdict and epsilon", z3.And(zbool(f["_is_sat"]) == ctx["sat"].z, zreal(f["_epsilon"]) == ctx["eps"].z))
+
+
+NbN = Ref("NeighborOrNone25")                    # Optional[DeltaNeighbors] as stored in the constraint map: null = None
+NbN.null = z3.Const("NeighborOrNone25.None", NbN.z3sort())
+_NN = NbN.z3sort()
+n_dst, n_bound, n_next = z3.Function("node.dst", _NN, _E), z3.Function("node.bound", _NN, z3.RealSort()), z3.Function("node.next", _NN, _NN)
+SUBSUMED = z3.Function("_is_subsumed.result", _E, _E, z3.RealSort(), z3.BoolSort())
+INCCHECK = z3.Function("_inc_check.result", _E, _E, z3.RealSort(), z3.BoolSort())
+MKN = z3.Function("DeltaNeighbors", _E, z3.RealSort(), _NN, _NN)
+
+
+class Add(Unit):
+    prop = "C25"
+    name = "DeltaSimpleTemporalNetwork.add"
+    doc = ("an inconsistent network is not touched; otherwise x and y get distances (0 when new), y gets a constraint entry, and unless subsumed the "
+           "constraint (y, b) is prepended to x's list and the verdict is _inc_check's")
+
+    def target(self):
+        return _ds.DeltaSimpleTemporalNetwork.add
+
+    def configure(self, eng):
+        def mk(eng_, st0, args, kw):
+            y, b, nxt0 = args
+            for st, nxt in eng_.force(st0, nxt0):
+                nz = nxt.z if isinstance(nxt, SRef) else NbN.null
+                r = MKN(y.z, zreal(b), nz)
+                st.assume(r != NbN.null, n_dst(r) == y.z, n_bound(r) == zreal(b), n_next(r) == nz)
+                yield st, NbN.wrap(r)
+        eng.contracts[_ds.DeltaNeighbors] = mk
+        eng.contracts[_ds.DeltaSimpleTemporalNetwork._is_subsumed] = lambda e, st, a, k: iter([(st, SBool(SUBSUMED(a[1].z, a[2].z, zreal(a[3]))))])
+
+        def inc(e, st, a, k):
+            st.ghost["inc_state"] = (st.load(st.getfield(a[0], "_constraints")), st.load(st.getfield(a[0], "_distances")))
+            yield st, SBool(INCCHECK(a[1].z, a[2].z, zreal(a[3])))
+        eng.contracts[_ds.DeltaSimpleTemporalNetwork._inc_check] = inc
+
+    def setup(self, eng, st):
+        cons = eng.fresh_of(st, Map(Event, NbN), "constraints")
+        dist = eng.fresh_of(st, Map(Event, PReal), "distances")
+        cl, dl = st.alloc(cons, "dict"), st.alloc(dist, "dict")
+        sat = PBool.fresh("is_sat")
+        w = st.alloc(Rec(_ds.DeltaSimpleTemporalNetwork, {"_constraints": cl, "_distances": dl, "_is_sat": sat, "_epsilon": PReal.fresh("epsilon")}), "stn")
+        x, y, b = Event.fresh("x"), Event.fresh("y"), PReal.fresh("b")
+        return [w, x, y, b], {}, dict(w=w, cons=cons, dist=dist, cl=cl, dl=dl, sat=sat, x=x, y=y, b=b)
+
+    def post(self, eng, ctx, st, out):
+        if out[0] != "return":
+            return
+        w, c0, d0, sat0 = ctx["w"], ctx["cons"], ctx["dist"], ctx["sat"].z
+        x, y, b = ctx["x"].z, ctx["y"].z, ctx["b"].z
+        c1, d1 = st.load(st.getfield(w, "_constraints")), st.load(st.getfield(w, "_distances"))
+        sat1 = zbool(st.getfield(w, "_is_sat"))
+        k = z3.Const(fresh_name("k"), _E)
+        st.oblige("an inconsistent network is left untouched", z3.Implies(z3.Not(sat0), z3.And(c1.same(c0).z, d1.same(d0).z, z3.Not(sat1))))
+        st.oblige("both events have a distance afterwards: their old one, else 0",
+                  z3.Implies(sat0, z3.And([z3.And(z3.Select(d1.has, e_), z3.Implies(z3.Select(d0.has, e_), z3.BoolVal(True))) for e_ in (x, y)])))
+        sub = SUBSUMED(x, y, b)
+        head0 = z3.If(z3.Select(c0.has, x), z3.Select(c0.val, x), NbN.null)
+        newhead = z3.Select(c1.val, x)
+        st.oblige("unless subsumed, the constraint (y, b) is prepended to x's list: the older constraints follow it unchanged",
+                  z3.Implies(z3.And(sat0, z3.Not(sub)), z3.And(z3.Select(c1.has, x), newhead != NbN.null, n_dst(newhead) == y, n_bound(newhead) == b, n_next(newhead) == head0)))
+        st.oblige("a subsumed constraint leaves x's list as it was", z3.Implies(z3.And(sat0, sub, z3.Select(c0.has, x)), z3.Select(c1.val, x) == z3.Select(c0.val, x)))
+        st.oblige("the destination has a constraint entry (possibly empty)", z3.Implies(sat0, z3.Select(c1.has, y)))
+        st.oblige("no other event's list changes",
+                  z3.ForAll([k], z3.Implies(z3.And(k != x, k != y), z3.And(z3.Select(c1.has, k) == z3.Select(c0.has, k), z3.Select(c1.val, k) == z3.Select(c0.val, k)))))
+        st.oblige("the verdict is the incremental check's (and stays true when the constraint is subsumed)",
+                  z3.Implies(sat0, sat1 == z3.If(sub, z3.BoolVal(True), INCCHECK(x, y, b))))
+
+
+UNITS = [IsSubsumed(), CopyStn(), Add()]
+LEVEL = "other"
 EXPLANATION = __doc__
+TRUSTED = ["DeltaNeighbors nodes are immutable after construction (no store to dst / bound / next outside the dataclass constructor)",
+           "the incremental Bellman-Ford (_inc_check) and therefore the consistency verdict and the least solution are decided by the bounded layer only"]
